@@ -244,10 +244,10 @@ func (w *Writer) DeleteNode(x *skiplist.Node) (success bool) {
 		}
 	}()
 
-	x.SetLink(nil)
 	sn := w.GetCurrSn()
 	gotItem := (*Item)(x.Item())
 	if gotItem.bornSn == sn {
+		x.SetLink(nil)
 		success = w.store.DeleteNode(x, w.insCmp, w.buf, &w.slSts1)
 
 		barrier := w.store.GetAccesBarrier()
@@ -257,6 +257,9 @@ func (w *Writer) DeleteNode(x *skiplist.Node) (success bool) {
 
 	success = atomic.CompareAndSwapUint32(&gotItem.deadSn, 0, sn)
 	if success {
+		// Only the winner may touch the link field: the node of a lost delete
+		// is already part of another writer's (or a snapshot's) garbage list.
+		x.SetLink(nil)
 		if w.gctail == nil {
 			w.gctail = x
 			w.gchead = w.gctail
